@@ -6,6 +6,7 @@ of an encoding is an I/O error, never a value.
 -/
 import Shp.Lemmas.ShortRead
 import Shp.Lemmas.TruncIdx
+import Shp.Lemmas.TruncSeq
 import Shp.Lemmas.Shrinks
 import Shp.Lemmas.ReadAll
 import Shp.Lemmas.ReadAll
@@ -431,5 +432,27 @@ theorem truncated_any_layout' (o : Orient) (tg : Target) (data shx : Bytes) (idx
         entryOut o tg (data.take t) idx[i] = .shape shapes[i] ∨ entryOut o tg (data.take t) idx[i] = .err .io := by
   obtain ⟨rest', hh'⟩ := header_survives_cut data h rest hh t h100 ht
   exact truncated_any_layout o tg data shx idx shapes h rest' xr t ht hx hh' ha
+
+/-- MAIN (any spec-conformant file, no index): a .shp whose records lie back to back behind the
+header — whatever wrote it: optional M blocks absent, null records, any stored boxes and record
+numbers — cut at ANY length from 100 bytes on and read sequentially: the reader opens and yields the
+first `k` records, then (if records are missing) the I/O error for the cut record, and ends -/
+theorem truncated_sequential_any_file (o : Orient) (tg : Target) (data : Bytes) (h : Header) (rest : Bytes)
+    (shapes : List Shape) (hh : readHeader data = .ok h rest) (hfl : 0 ≤ h.fileLength)
+    (hrec : SeqRecords o tg data (2 * h.fileLength).toNat 100 shapes)
+    (t : Nat) (h100 : 100 ≤ t) (ht : t ≤ data.length) :
+    ∃ st k, RState.open (data.take t) none = .ok st ∧ k ≤ shapes.length ∧
+      (st.iterAll o tg st.fuel).2 =
+        (shapes.take k).map ROut.shape ++ (if k < shapes.length then [ROut.err .io] else []) := by
+  obtain ⟨rest', hh'⟩ := header_survives_cut data h rest hh t h100 ht
+  have hc := readHeader_consumes (data.take t) h rest' hh'
+  unfold RState.open
+  simp only [hh']
+  let st : RState := ⟨data.take t, (data.take t).length - rest'.length, h, none, some Const.headerSize, 0⟩
+  have hst : TSeq o tg data t st 100 :=
+    ⟨rfl, rfl, rfl, by simp only [st, List.length_take] at hc ⊢; omega, hfl⟩
+  obtain ⟨k, hk, hall⟩ := truncated_sequential_any o tg data t ht shapes 100 st st.fuel hrec hst h100 (by
+    simp only [st, RState.fuel, List.length_take]; omega)
+  exact ⟨st, k, rfl, hk, hall⟩
 
 end Shp.C13
